@@ -60,9 +60,9 @@ def selftest(prop, spec, k=60, seed=7):
             cor[i + 1] = what
     ctrace = os.path.join(wdir, "corrupted.ndjson")
     open(ctrace, "w").write("\n".join(lines) + "\n")
-    base_res, _ = vcheck.validate_trace(trace, wdir, "base")
+    base_res, _ = vcheck.validate_trace(trace, wdir, "base", spec.get("judges", [prop]))
     base_rej = set(r["base"] + i for r in base_res for i in r["rejects"])
-    res, _ = vcheck.validate_trace(ctrace, wdir, "cor")
+    res, _ = vcheck.validate_trace(ctrace, wdir, "cor", spec.get("judges", [prop]))
     rej = set(r["base"] + i for r in res for i in r["rejects"])
     missed = [i for i in cor if i not in rej]
     extra = [i for i in rej if i not in cor and i not in base_rej]
